@@ -125,6 +125,31 @@ def seed_table():
     return "\n".join(rows)
 
 
+def harmless_table():
+    pth = os.path.join(ROOT, "seeded", "HARMLESS.json")
+    if not os.path.exists(pth):
+        return "(seeded/HARMLESS.json not written yet)"
+    res = json.load(open(pth))
+    rows = ["| id | what was refactored (sub-agent's summary) | files | result of all 20 quick checks |", "|---|---|---|---|"]
+    for k in sorted(res):
+        m = {}
+        mp = os.path.join(ROOT, "seeded", "harmless", k, "meta.json")
+        if os.path.exists(mp):
+            m = json.load(open(mp))
+        summ = m.get("summary", "")
+        if isinstance(summ, list):
+            summ = " ".join(summ)
+        summ = (summ[:420] + "...") if len(summ) > 420 else summ
+        n = 0
+        pp = os.path.join(ROOT, "seeded", "harmless", k, "patch.diff")
+        if os.path.exists(pp):
+            n = sum(1 for l in open(pp) if (l.startswith("+") or l.startswith("-")) and not l.startswith("+++") and not l.startswith("---"))
+        al = res[k]["alarms"]
+        verdict = "**quiet**" if not al else "**ALARM**: " + "; ".join(f"{a['property']} {a.get('op', '')}" for a in al)
+        rows.append(f"| {k} | {summ.replace('|', chr(92) + '|')} ({n} changed lines) | {', '.join(m.get('files', []))} | {verdict} |")
+    return "\n".join(rows)
+
+
 def hooks():
     out = []
     for c in P.HOOK_COMMITS:
@@ -156,7 +181,7 @@ def lean_sizes():
 def main():
     text = open(os.path.join(ROOT, "tools", "design_text.md")).read()
     blocks = {"PER_PROPERTY": per_property(), "FIX_TABLE": fix_table(), "OPEN_TABLE": open_table(),
-              "SEED_TABLE": seed_table(), "HOOKS": hooks(), "LEAN_SIZES": lean_sizes()}
+              "SEED_TABLE": seed_table(), "HARMLESS_TABLE": harmless_table(), "HOOKS": hooks(), "LEAN_SIZES": lean_sizes()}
     blocks.update(counts())
     for k, v in blocks.items():
         text = text.replace("{{" + k + "}}", v)
